@@ -117,6 +117,10 @@ def check_trace(c, toks):
         # ever *removed* by the release step
         if prev is not None and prev[2] != 0 and p != prev[2] and not (prev[0] == 11 or (prev[0] == 4 and p != 0)):
             return ("C18:remembered-signal-erased", "pending signal %d was replaced by %d in a step (yield %d) that is not the release" % (prev[2], p, prev[0]))
+        # the outermost release (yield 11 is reached when the count dropped to zero) takes the remembered signal out of the slot —
+        # to deliver it or to drop it: unless an arrival interrupts right there, the next observation shows an empty slot
+        if prev is not None and prev[0] == 11 and i != 1 and p != 0:
+            return ("C18:stale-remembered-signal", "signal %d is still remembered after the outermost release (it would be delivered by some later, unrelated release)" % p)
         if i == 0:
             if mi < len(main):
                 op = main[mi]; mi += 1
